@@ -74,11 +74,12 @@ def _check_no_nones_in_list(lst: List, name: str):
 
 
 def _unique_tasks(tasks):
+    # Uniqueness by object identity: different tasks (of different trees) may share an id
     m = set()
     res = []
     for t in tasks:
-        if t.id not in m:
-            m.add(t.id)
+        if id(t) not in m:
+            m.add(id(t))
             res.append(t)
 
     return res
@@ -832,13 +833,18 @@ class Task:
         Setter for predecessor tasks
         :param value: new predecessors
         """
-        value = _to_list(value)
+        value = _unique_tasks(_to_list(value))
         _check_no_nones_in_list(value, 'predecessors')
 
         parents = self.all_parents
+        children = self.all_children
         for v in value:
+            if v is self:
+                raise RuntimeError("Can't set task as its own predecessor")
             if v in parents:
                 raise RuntimeError("Can't set parent as predecessor")
+            if v in children:
+                raise RuntimeError("Can't set child as predecessor")
 
         for v in value:
             if self in v.all_predecessors:
@@ -848,7 +854,7 @@ class Task:
             if self in v.__successors:
                 v.__successors.remove(self)
 
-        self.__predecessors = [v for v in value]
+        self.__predecessors[:] = value
 
         for v in value:
             if self not in v.__successors:
@@ -878,13 +884,18 @@ class Task:
         Setter for direct successors
         :param value: new direct successors
         """
-        value = _to_list(value)
+        value = _unique_tasks(_to_list(value))
         _check_no_nones_in_list(value, 'successors')
 
         parents = self.all_parents
+        children = self.all_children
         for v in value:
+            if v is self:
+                raise RuntimeError("Can't set task as its own successor")
             if v in parents:
                 raise RuntimeError("Can't set parent as successor")
+            if v in children:
+                raise RuntimeError("Can't set child as successor")
 
         for v in value:
             if self in v.all_successors:
@@ -894,7 +905,7 @@ class Task:
             if self in v.__predecessors:
                 v.__predecessors.remove(self)
 
-        self.__successors = [v for v in value]
+        self.__successors[:] = value
 
         for v in value:
             if self not in v.__predecessors:
